@@ -134,6 +134,11 @@ class Ctx:
             raise CheckFailed(bucket)
         return False
 
+    def tick(self):
+        """to be called by step-wise drivers (state machines) that do not go through run(): bounds the time spent shrinking"""
+        if self.in_given and self.shrink_t0 is not None and time.time() - self.shrink_t0 > self.shrink_limit:
+            raise Abort()
+
     def run(self, name, **case):
         """Run the named pure case-checker of the property on a concrete case."""
         self.cur = (name, case)
